@@ -88,7 +88,7 @@ func (s *side) close() {
 }
 
 func ctxT() (context.Context, context.CancelFunc) {
-	return context.WithTimeout(context.Background(), 60*time.Second)
+	return context.WithTimeout(context.Background(), 300*time.Second)
 }
 
 // ---- error classes ---------------------------------------------------------------------------
